@@ -141,8 +141,13 @@ class Divergence(Exception):
 class Replayer:
   """Replays one behaviour."""
 
-  def __init__(self, clauses: Set[str]):
+  def __init__(self, clauses: Set[str], facts_policy: str = 'all'):
     self.clauses = clauses          # clauses this property compares
+    # which nodes' derived facts are READ (and compared) after a call -- reading fills the memos, so the policy decides
+    # which memo patterns exist when the next write has to invalidate them:
+    #   'all'   every live node after every call;  'roots'  only the roots after every call;
+    #   'model' only the node named by a ReadFacts step of the behaviour
+    self.facts_policy = facts_policy
     self.obj: Dict[int, Any] = {}
     self.scopes: List[Any] = []     # entered context managers (stack, per family)
     self.sstack: List[Any] = []
@@ -624,7 +629,13 @@ class Replayer:
       self.compare_events(st)
     # -- derived facts (read on the live objects after every call, so memos are always populated)
     if 'facts' in self.clauses:
-      for n in alive:
+      if self.facts_policy == 'all':
+        todo = alive
+      elif self.facts_policy == 'roots':
+        todo = [n for n in alive if st['parent'][n - 1] == 0]
+      else:
+        todo = [st['act'][1]] if st['act'][0] == 'ReadFacts' else []
+      for n in todo:
         self.compare_facts(st, n)
 
   def path_codes_to_str(self, recv_n, codes):
@@ -721,6 +732,8 @@ class Replayer:
                                 f'{pg.is_deterministic(o)} expected placeholder-present = {f[3]}')
 
   def do_ReadFacts(self, n):
+    if self.facts_policy != 'all':
+      return          # the comparison that follows the step performs the read
     o = self.obj[n]
     o.sym_missing(); o.sym_nondefault(); _ = o.sym_puresymbolic, o.is_partial
 
